@@ -3,6 +3,7 @@ import Driver.C01Mon
 import Driver.C02Mon
 import Driver.C12Mon
 import Driver.FlowMon
+import Driver.C19Mon
 open Kv
 
 structure MState where
@@ -18,6 +19,7 @@ def dispatchMon (st : MState) (prop : String) (l : Line) : MState × String :=
   | "C12" => (st, Drv.C12.step l)
   | "C04" => let (s, r) := Drv.Flow.stepMon "C04" st.c04 l; ({ st with c04 := s }, r)
   | "C07" => let (s, r) := Drv.Flow.stepMon "C07" st.c07 l; ({ st with c07 := s }, r)
+  | "C19" => (st, Drv.C19.stepMon l)
   | _ => (st, "bad-op")
 
 def main : IO Unit := driverMain dispatchMon {}
